@@ -1,8 +1,8 @@
 use crate::contract::IBC_TIMEOUT;
 use crate::error::{ContractError, ContractResult};
 use crate::helpers::{
-    compute_mint_amount, compute_unbond_amount, derive_intermediate_sender, get_rates,
-    paginate_map, validate_address, validate_addresses,
+    checked_deadline, compute_mint_amount, compute_unbond_amount, derive_intermediate_sender,
+    get_rates, paginate_map, validate_address, validate_addresses,
 };
 use crate::oracle::Oracle;
 use crate::state::{
@@ -398,7 +398,7 @@ pub fn execute_submit_batch(
     let new_pending_batch = Batch::new(
         batch.id + 1,
         Uint128::zero(),
-        env.block.time.seconds() + config.batch_period,
+        checked_deadline(env.block.time.seconds(), config.batch_period)?,
     );
 
     // Save new pending batch
@@ -440,7 +440,10 @@ pub fn execute_submit_batch(
     batch.expected_native_unstaked = Some(unbond_amount);
     batch.update_status(
         BatchStatus::Submitted,
-        Some(env.block.time.seconds() + config.native_chain_config.unbonding_period),
+        Some(checked_deadline(
+            env.block.time.seconds(),
+            config.native_chain_config.unbonding_period,
+        )?),
     );
 
     BATCHES.save(deps.storage, batch.id, &batch)?;
